@@ -368,10 +368,12 @@ Section PackProofs.
   Lemma msg_len_set_ext : forall opt rcode (m : msgT),
     msg_len Name Body q_len rr_len (lib_set_ext Name Body opt rcode m) = msg_len Name Body q_len rr_len m.
   Proof.
-    intros. unfold msg_len, m_records, lib_set_ext, msg_upd. cbn.
-    fold (lib_rewrite opt rcode (m_answer Name Body m)) (lib_rewrite opt rcode (m_ns Name Body m))
-         (lib_rewrite opt rcode (m_extra Name Body m)).
-    rewrite !rsum_app, !rsum_rewrite. reflexivity.
+    intros opt rcode m.
+    assert (Hq : m_question Name Body (lib_set_ext Name Body opt rcode m) = m_question Name Body m) by reflexivity.
+    assert (Ha : m_answer Name Body (lib_set_ext Name Body opt rcode m) = lib_rewrite opt rcode (m_answer Name Body m)) by reflexivity.
+    assert (Hn : m_ns Name Body (lib_set_ext Name Body opt rcode m) = lib_rewrite opt rcode (m_ns Name Body m)) by reflexivity.
+    assert (He : m_extra Name Body (lib_set_ext Name Body opt rcode m) = lib_rewrite opt rcode (m_extra Name Body m)) by reflexivity.
+    unfold msg_len, m_records. rewrite Hq, Ha, Hn, He, !rsum_app, !rsum_rewrite. reflexivity.
   Qed.
 
   (* the pooled pack of [m] against the library's pack of [m] with the OPT rewritten, when
@@ -419,8 +421,10 @@ Section PackProofs.
     change (N.to_nat header_len) with 12 in HP.
     destruct (PQs (m_question Name Body m) p6 12 cm c) as [[[poff pout] pcm]|] eqn:EPQ; [|discriminate].
     destruct (LQs (m_question Name Body m) l6 12 cm c) as [[[loff lout] lcm]|] eqn:ELQ; [|discriminate].
-    destruct (sim_questions Hn Hdn K _ _ _ _ _ _ _ _ _ _ _ _ Hag6 ltac:(lia) EPQ ELQ) as (-> & -> & Hagq & Hlq & Hbq).
-    destruct (pooled_questions_len Hn _ _ _ _ _ _ _ _ EPQ) as [Hpl Hpb]. specialize (Hpb ltac:(lia)).
+    assert (H12l : 12 <= length l6) by lia.
+    destruct (sim_questions Hn Hdn K _ _ _ _ _ _ _ _ _ _ _ _ Hag6 H12l EPQ ELQ) as (-> & -> & Hagq & Hlq & Hbq).
+    destruct (pooled_questions_len Hn _ _ _ _ _ _ _ _ EPQ) as [Hpl Hpb].
+    assert (H12p : 12 <= length p6) by lia. specialize (Hpb H12p).
     unfold m_records in HP. rewrite pooled_records_app in HP.
     set (rc := h_rcode (m_hdr Name Body m)) in *.
     destruct (PRec v opt rc c (m_answer Name Body m) _ m) as [[ok1 w1] mm1] eqn:EP1.
@@ -435,7 +439,9 @@ Section PackProofs.
     destruct (LRec c (lib_rewrite opt rc (m_extra Name Body m)) lo2 _ _) as [lo3 lf3 lc3| |] eqn:EL3; try discriminate.
     destruct (sim_records Hr Hdr Hib K _ _ _ _ _ _ _ _ _ _ _ _ _ HP Hag2 Hb2 EL3) as (-> & -> & Hag3 & Hl3 & Hb3).
     (* the final offset lies inside both buffers, hence inside the window *)
-    pose proof (pooled_records_bound Hr _ _ _ _ _ _ _ _ _ EP1 ltac:(cbn; lia)) as B1.
+    assert (B0 : pw_off Name Body CMap (mk_pwork Name Body CMap pout loff lcm (ps_shim_rr Name Body CMap st) (ps_shim_hdr Name Body CMap st) (ps_opt Name Body CMap st))
+                 <= length (pw_out Name Body CMap (mk_pwork Name Body CMap pout loff lcm (ps_shim_rr Name Body CMap st) (ps_shim_hdr Name Body CMap st) (ps_opt Name Body CMap st)))) by (cbn; lia).
+    pose proof (pooled_records_bound Hr _ _ _ _ _ _ _ _ _ EP1 B0) as B1.
     pose proof (pooled_records_bound Hr _ _ _ _ _ _ _ _ _ EP2 B1) as B2.
     pose proof (pooled_records_bound Hr _ _ _ _ _ _ _ _ _ HP B2) as B3.
     pose proof (pooled_records_len Hr v opt rc c (m_answer Name Body m)
@@ -494,7 +500,7 @@ Section PackProofs.
     rewrite <- select_opt_eq_lib_l in HL.
     change (lib_msg_compressible Name Body m) with (msg_compressible Name Body m) in HL. fold c in HL.
     assert (H12 : 12 <= length (ps_buf Name Body CMap st0)).
-    { subst st0. cbn. rewrite zero_prefix_length, Hlen. vm_compute. lia. }
+    { subst st0. cbn [ps_buf]. rewrite zero_prefix_length, Hlen. vm_compute. lia. }
     assert (Hag0 := scrubbed_agrees st m Hlen). change (zero_prefix (Klen m) (ps_buf Name Body CMap st)) with (ps_buf Name Body CMap st0) in Hag0.
     destruct (select_opt (shapes Name Body (m_extra Name Body m))) as [|i|] eqn:Es; [| |contradiction].
     - destruct Hsel as [-> Hp]. change rcode_plain_max with 15%Z in Hp.
@@ -763,7 +769,7 @@ Section PackProofs.
     rewrite <- select_opt_eq_lib_l.
     change (lib_msg_compressible Name Body m) with (msg_compressible Name Body m). fold c.
     assert (Hl0 : length (ps_buf Name Body CMap st0) = N.to_nat pack_buffer_size).
-    { subst st0. cbn. rewrite zero_prefix_length. exact Hlen. }
+    { subst st0. cbn [ps_buf]. rewrite zero_prefix_length. exact Hlen. }
     assert (H12 : 12 <= length (ps_buf Name Body CMap st0)) by (rewrite Hl0; vm_compute; lia).
     assert (Hfit : msg_len Name Body q_len rr_len m <= length (ps_buf Name Body CMap st0)) by (rewrite Hl0; lia).
     assert (Hag0 := scrubbed_agrees st m Hlen). change (zero_prefix (Klen m) (ps_buf Name Body CMap st)) with (ps_buf Name Body CMap st0) in Hag0.
